@@ -166,11 +166,23 @@ pub(super) fn sub2(a: &mut [BigDigit], b: &[BigDigit]) {
 
     let mut borrow = b as u8;
 
+    #[cfg(num_bigint_verif)]
+    {
+        crate::__verif::hit_n(crate::__verif::ASM_SUB_BLOCKS, (done / 5) as u64);
+        if done < len {
+            crate::__verif::hit(crate::__verif::SUB_TAIL);
+        }
+    }
+
     for (a, b) in a_lo[done..].iter_mut().zip(b_lo[done..].iter()) {
         borrow = sbb(borrow, *a, *b, a);
     }
 
     if borrow != 0 {
+        #[cfg(num_bigint_verif)]
+        if !a_hi.is_empty() {
+            crate::__verif::hit(crate::__verif::SUB_BORROW_HI);
+        }
         for a in a_hi {
             borrow = sbb(borrow, *a, 0, a);
             if borrow == 0 {
